@@ -15,8 +15,8 @@ import (
 // GuardSpec: accesses to Field need a lock of class Lock to be held.
 type GuardSpec struct {
 	Field      *types.Var
-	FieldName  string // for reports: "ThreadPool.queue"
-	Lock       string // lock class
+	FieldName  string          // for reports: "ThreadPool.queue"
+	Lock       string          // lock class
 	OnlyMethod map[string]bool // if set: only these method calls on the field value need the guard
 	WritesOnly bool            // only writes (stores, map updates, deletes) need the guard
 	ReadLockOK bool            // a read lock suffices for reads (writes always need the exclusive lock)
